@@ -813,7 +813,7 @@ impl Check for C17 {
         "C17"
     }
     fn rule(&self) -> String {
-        "exhaustive: every sequence of length 1..=L (L = 4 quick; thorough 4 and then 5) over the 60-op alphabet {insert_proof(h, P): h in 5 handles, P any set of <= 2 other handles} + {invalidate_handle(h)} that respects the statement's proviso (no handle that has been invalidated, directly or by losing all justifications, is used as a premise later), with keys K0,K1,K2,K0,K1 for handles 0..4 (two pairs of handles share a key, so re-proof under a fresh handle is included); each sequence is compared with the reference support model at its end (so every prefix is judged, without observer calls in between), and every sequence of length L-1 is also run with comparison after every op. random: histories of 1..=9 ops over 2..=5 handles (thorough also 1..=14 ops over up to 7 handles), 0-3 premises, random key sharing, occasional self-premise and duplicate premise, half of them 'clean' (premises inserted before dependents or never inserted), compared after every op. A case is non-trivial when at least one invalidation killed a justification of a cached proof; distinct by (key assignment, op sequence, observation mode).".into()
+        "exhaustive families (handles / keys of the handles / depth L): quick 5 / K0,K1,K2,K0,K1 / 4 and 3 / K0,K1,K0 / 6; thorough additionally 4 / K0,K1,K2,K0 / 5 and 5 / K0,K1,K2,K0,K1 / 5. A family enumerates every sequence of length 1..=L over its alphabet {insert_proof(h, P): h any handle, P any set of <= 2 other handles} + {invalidate_handle(h)} (60 ops for 5 handles, 32 for 4, 15 for 3) that respects the statement's proviso (no handle that has been invalidated, directly or by losing all justifications, is used as a premise later); shared keys put re-proof under a fresh handle into the families. Each sequence is compared with the reference support model at its end (so every prefix is judged, without observer calls in between; a prefix that already violates is not extended), and every sequence of length L-1 is also run with comparison after every op. random: histories of 1..=9 ops over 2..=5 handles (thorough: every fourth one 1..=14 ops over up to 7 handles), 0-3 premises, random key sharing, occasional self-premise and duplicate premise, half of them 'clean' (premises inserted before dependents or never inserted), 7/8 compared after every op. A case is non-trivial when at least one invalidation killed a justification of a cached proof; distinct by (key assignment, op sequence, observation mode).".into()
     }
     fn assumptions(&self) -> Vec<String> {
         vec![
@@ -825,27 +825,28 @@ impl Check for C17 {
         ]
     }
     fn explore(&self, cli: &Cli, st: &mut Stats) {
-        let keys: Vec<u8> = vec![0, 1, 2, 0, 1];
-        let alpha = alphabet(5);
-        // jobs = first two ops
-        let mut jobs: Vec<(usize, usize)> = Vec::new();
-        for a in 0..alpha.len() {
-            for b in 0..alpha.len() {
-                jobs.push((a, b));
-            }
-        }
         let nthreads = cli.threads;
-        let alpha_ref = &alpha;
-        let keys_ref = &keys;
-        let jobs_ref = &jobs;
-        let sweep = |depth: usize, st: &mut Stats| {
+        // one exhaustive family = (key of every handle, depth)
+        let sweep = |keys: Vec<u8>, depth: usize, st: &mut Stats| {
+            let n = keys.len();
+            let alpha = alphabet(n as u8);
+            // jobs = first two ops
+            let mut jobs: Vec<(usize, usize)> = Vec::new();
+            for a in 0..alpha.len() {
+                for b in 0..alpha.len() {
+                    jobs.push((a, b));
+                }
+            }
+            let alpha_ref = &alpha;
+            let keys_ref = &keys;
+            let jobs_ref = &jobs;
             let stopped = std::sync::atomic::AtomicBool::new(false);
             let stopped_ref = &stopped;
             shards(cli, nthreads, st, |shard, _rng, st| {
                 // length-1 prefixes once
                 if shard == 0 {
                     for op in alpha_ref.iter() {
-                        let mut m = Model::new(5);
+                        let mut m = Model::new(n);
                         if m.apply(op).is_ok() {
                             check_case(&Case { keys: keys_ref.clone(), ops: vec![op.clone()], observe_every_op: false }, st);
                         }
@@ -860,7 +861,7 @@ impl Check for C17 {
                         st.count("stopped_by_time_budget");
                         break;
                     }
-                    let mut m = Model::new(5);
+                    let mut m = Model::new(n);
                     if m.apply(&alpha_ref[*a]).is_err() {
                         continue;
                     }
@@ -881,14 +882,18 @@ impl Check for C17 {
             });
             if !stopped.load(std::sync::atomic::Ordering::SeqCst) {
                 st.exhaustive.push(format!(
-                    "all proviso-respecting sequences of length 1..={} over 60 ops (insert_proof with <=2 premises / invalidate_handle, 5 handles, keys K0,K1,K2,K0,K1), judged at the end of every prefix (a prefix that already violates is not extended); all of length {} also judged after every op",
+                    "all proviso-respecting sequences of length 1..={} over the {}-op alphabet of {} handles (insert_proof with <=2 premises / invalidate_handle; keys of the handles {:?}), judged at the end of every prefix (a prefix that already violates is not extended); all of length {} also judged after every op",
                     depth,
+                    alpha.len(),
+                    n,
+                    keys,
                     depth - 1
                 ));
             }
         };
-        // 1. exhaustive sweep to depth 4 (both tiers)
-        sweep(4, st);
+        // 1. exhaustive sweeps of the quick tier (also run by thorough)
+        sweep(vec![0, 1, 2, 0, 1], 4, st);
+        sweep(vec![0, 1, 0], 6, st);
         // 2. random part
         let per = cli.n(60_000, 3_000_000);
         shards(cli, nthreads, st, |_shard, rng, st| {
@@ -908,9 +913,11 @@ impl Check for C17 {
             }
             flush_tally(st);
         });
-        // 3. thorough: exhaustive sweep to depth 5 (re-runs the shorter prefixes, 1/60 of its work)
+        // 3. thorough: deeper sweeps last (they re-run the shorter prefixes, a small part of their
+        //    work), so that a time-budget stop only costs the deepest one
         if cli.tier == Tier::Thorough {
-            sweep(5, st);
+            sweep(vec![0, 1, 2, 0], 5, st);
+            sweep(vec![0, 1, 2, 0, 1], 5, st);
         }
     }
     fn replay(&self, cli: &Cli, case: &Json) -> Vec<Violation> {
